@@ -56,6 +56,46 @@ PROPS = {
                      required_classes={"both": ["eea.encrypt/eea.len%32=0", "eea.encrypt/eea.len%32=1", "eea.encrypt/eea.len%32=31", "eia.mac/eia.len0", "eia.mac/eia.len%32=0", "eia.mac/eia.len-other"]})],
         assumptions=["EEA3.tla transcribes 3GPP TS 35.221 (official test sets as ASSUMEs) over ZUC.tla"],
     ),
+    "C03": dict(
+        level="model_checking",
+        rule="events = sign calls under the RNG hook (nonce observed or scripted) and verify calls on library-made, spec-made and OpenSSL-made signatures; "
+             "distinct = distinct (key, id, message, nonce); non-trivial = all",
+        models=[dict(module="AnchorSM2", anchor=True, workers=1, about="SM2.tla reproduces the GM/T 0003.5 Annex signature, ciphertext and key agreement values (ASSUMEs)")],
+        stages=[dict(suite="sm2sig", trace="TraceSM2", plan=dict(module="PlanSM2Sig", cfg_quick="PlanSM2Sig_q", cfg_thorough="PlanSM2Sig_t"),
+                     required_classes={"both": ["sm2.sign/fixed-nonce", "sm2.sign/free-nonce", "sm2.verify/untouched"]})],
+        assumptions=["SM2.tla transcribes GB/T 32918.2 (anchored by the GM/T 0003.5 Annex A signature as ASSUME)", "BigNat Java override (cross-checked by MC_BigNat)"],
+    ),
+    "C04": dict(
+        level="fault_enumeration",
+        rule="events = verify calls on valid signatures and on enumerated faults (all 512 bit flips, component substitutions, lengths 0..130, altered message/id/key, "
+             "crafted digest-level cases from the TLC plan); distinct = distinct (key, id, message, signature bytes); non-trivial = all faulted events (class != untouched)",
+        trivial_classes=("untouched",),
+        models=[dict(module="AnchorSM2", anchor=True, workers=1, about="SM2.tla reproduces the GM/T 0003.5 Annex values")],
+        stages=[dict(suite="sm2ver", trace="TraceSM2", plan=dict(module="PlanSM2Sig", cfg_quick="PlanSM2Sig_q", cfg_thorough="PlanSM2Sig_t"),
+                     required_classes={"both": ["sm2.verify/untouched", "sm2.verify/tampered64", "sm2.verify/len<64", "sm2.verify/len>64",
+                                                "sm2.verify_digest/digest.small-s", "sm2.verify_digest/digest.s+n", "sm2.verify_digest/digest.r+n", "sm2.verify_digest/digest.t=0"]})],
+        assumptions=["SM2.tla transcribes GB/T 32918.2", "BigNat Java override (cross-checked by MC_BigNat)"],
+    ),
+    "C05": dict(
+        level="model_checking",
+        rule="events = encrypt calls under the RNG hook (k observed or scripted), decrypt calls on library-made and spec-made ciphertexts, kdf calls; "
+             "distinct = distinct (key, k, message, format); non-trivial = all",
+        models=[dict(module="AnchorSM2", anchor=True, workers=1, about="SM2.tla reproduces the GM/T 0003.5 Annex values")],
+        stages=[dict(suite="sm2enc", trace="TraceSM2", plan=dict(module="PlanSM2Enc", cfg_quick="PlanSM2Enc_q", cfg_thorough="PlanSM2Enc_t"),
+                     required_classes={"both": ["sm2.encrypt/c1c3c2.uncomp.klen%32=0", "sm2.encrypt/c1c2c3.comp.short", "sm2.decrypt/own-ciphertext", "sm2.decrypt/spec-made", "sm2.kdf/klen%32=0"]})],
+        assumptions=["SM2.tla transcribes GB/T 32918.4 (anchored by the GM/T 0003.5 Annex ciphertext as ASSUME)"],
+    ),
+    "C06": dict(
+        level="fault_enumeration",
+        rule="events = decrypt calls on valid ciphertexts and enumerated faults (every bit flip, every truncation, replaced / crafted C1 from the TLC plan); "
+             "distinct = distinct (key, ciphertext bytes, format flags); non-trivial = all faulted events",
+        trivial_classes=("untouched",),
+        models=[dict(module="AnchorSM2", anchor=True, workers=1, about="SM2.tla reproduces the GM/T 0003.5 Annex values")],
+        stages=[dict(suite="sm2dec", trace="TraceSM2", plan=dict(module="PlanSM2Enc", cfg_quick="PlanSM2Enc_q", cfg_thorough="PlanSM2Enc_t"),
+                     required_classes={"both": ["sm2.decrypt/untouched", "sm2.decrypt/flip-c1", "sm2.decrypt/flip-body", "sm2.decrypt/truncated",
+                                                "sm2.decrypt/offcurve", "sm2.decrypt/x+p", "sm2.decrypt/nonresidue", "sm2.decrypt/valid-small-x"]})],
+        assumptions=["SM2.tla transcribes GB/T 32918.4 and the SEC1 point decoding rules"],
+    ),
 }
 
 # what MANIFEST.json says about each claimed check
@@ -101,12 +141,38 @@ MANIFEST_TEXT["C18"] = dict(
     note="Trusted: TLC/SANY, CommunityModules, the transcription of TS 35.221 in EEA3.tla (official test sets as ASSUMEs), harness logging.",
     technique="TLA+ trace validation with TLC + exhaustive model of the word-level helpers",
 )
+MANIFEST_TEXT["C03"] = dict(
+    text="Every recorded sign call runs under the RNG hook, so the nonce the library actually used is known (scripted: Annex A example, k = 1, k = n-1, random; or free): "
+         "TLC recomputes (r, s) from GB/T 32918.2 (SM2.tla) and requires byte equality, the standard's retry rule for every rejected nonce, and r, s in [1, n-1]. Library-made, "
+         "spec-made (PlanSM2Sig: the specification as an independent signer) and OpenSSL-made signatures are fed to verify and must be accepted. Keys: 1, 2, n-2, sparse/dense, random; IDs of 0..8191 bytes; messages 0..4096 bytes.",
+    note="Trusted: TLC/SANY, CommunityModules, BigNat Java override (cross-checked against the pure TLA+ definitions by MC_BigNat), the transcription of GB/T 32918.2 in SM2.tla "
+         "(GM/T 0003.5 Annex A as ASSUME), the gm_rs_verif RNG hook, harness logging.",
+    technique="TLA+ trace validation with TLC at real parameters (exact differential against the specification as reference signer) + spec-made signatures replayed on the library",
+)
+MANIFEST_TEXT["C04"] = dict(
+    text="Fault enumeration judged by the specification: for valid signatures every one of the 512 bit flips, component substitutions (0, n, n+1, 2^256-1, n-1, s = n-r, swap), "
+         "every length 0..130, altered message / ID / key, random pairs; plus digest-level cases CONSTRUCTED by the specification (PlanSM2Sig) so that exactly one check can reject "
+         "them: (r, s+n), (r+n, s), (r, n-r) with matching e. Rule: the library may accept only if SM2.tla's Verify holds (evaluated lazily), untouched signatures must be accepted, "
+         "a length other than 64 must be an error, a panic is a deviation.",
+    note="Trusted: as C03, plus the digest-level hook wrappers (verif_verify_digest). Removing only the r-range check is unobservable (the final comparison rejects r+n) and is not claimed.",
+    technique="fault enumeration with TLA+ trace validation (TLC) and specification-constructed forgeries",
+)
+MANIFEST_TEXT["C05"] = dict(
+    text="Every recorded encrypt call runs under the RNG hook; TLC recomputes the exact ciphertext from GB/T 32918.4 (SM2.tla) for the observed/scripted k in both orders and both C1 "
+         "encodings (Annex example, lengths 1..300 incl. every klen mod 32 class, zero/leading-zero messages, long messages), judges kdf(z, klen) for klen 1..300, and the library must "
+         "decrypt its own and the specification's ciphertexts (PlanSM2Enc) to the original message.",
+    note="Trusted: as C03 (GM/T 0003.5 Annex ciphertext as ASSUME).",
+    technique="TLA+ trace validation with TLC at real parameters (exact ciphertext differential) + spec-made ciphertexts replayed on the library",
+)
+MANIFEST_TEXT["C06"] = dict(
+    text="Fault enumeration judged by the specification: for valid ciphertexts every single-bit flip (prefix / C1 / body), every truncation length, wrong format flags, extension, other key, "
+         "replaced C1; plus ciphertexts CRAFTED by the specification (PlanSM2Enc) whose C3 is valid for the point the library would compute, so that only the C1 validation can reject: "
+         "coordinates >= p, off-curve (invalid-curve) points, non-residue compressed x. Rule: outcome must equal SM2.tla's Decrypt (hybrid prefixes and empty bodies: either), panic is a deviation.",
+    note="Trusted: as C03.",
+    technique="fault enumeration with TLA+ trace validation (TLC) and specification-crafted invalid-curve ciphertexts",
+)
 
 NOT_APPLICABLE = {
-    "C03": "machinery for this property is not built yet in this round (specification module in progress); not claimed until its check is sound",
-    "C04": "machinery for this property is not built yet in this round (specification module in progress); not claimed until its check is sound",
-    "C05": "machinery for this property is not built yet in this round (specification module in progress); not claimed until its check is sound",
-    "C06": "machinery for this property is not built yet in this round (specification module in progress); not claimed until its check is sound",
     "C09": "machinery for this property is not built yet in this round (specification module in progress); not claimed until its check is sound",
     "C10": "machinery for this property is not built yet in this round (specification module in progress); not claimed until its check is sound",
     "C11": "machinery for this property is not built yet in this round (specification module in progress); not claimed until its check is sound",
